@@ -1089,14 +1089,30 @@ theorem grouped_name_stale_after_member_rename_counterexample :
     (run {} (ops ++ [.readName 0])).2.getLast? = some (.name "x,y") ∧ ¬ Coherent (run {} ops).1 ∧
     freshName (run {} ops).1.plain [0, 1] = "q,y" := by decide
 
-/-- history dependence WITHOUT any mutation: `g.take(...)` (and `g[pos] = t`) raise AttributeError until the labels were
-read once -/
-theorem grouped_take_before_read_counterexample :
+/-- no history dependence without a mutation (since the repair F73; before it `g.take(...)` and `g[pos] = t` raised
+AttributeError until the labels had been read once - `run` of the first history ended in `.err .attribute`): the answers
+are the same whether or not the labels were read before -/
+theorem grouped_take_read_independent :
     let pre : List GOp := [.mkPlain [.num 1, .num 2] "x", .mkPlain [.num 5, .num 6] "y", .group [0, 1]]
-    (run {} (pre ++ [.takeG 0 [0]])).2.getLast? = some (.err .attribute) ∧
+    (run {} (pre ++ [.takeG 0 [0]])).2.getLast? = some (.tuples [[.num 1, .num 5]]) ∧
     (run {} (pre ++ [.readLabels 0, .takeG 0 [0]])).2.getLast? = some (.tuples [[.num 1, .num 5]]) ∧
-    (run {} (pre ++ [.setItemG 0 0 [.num 7, .num 7]])).2.getLast? = some (.err .attribute) ∧
+    (run {} (pre ++ [.setItemG 0 0 [.num 7, .num 7]])).2.getLast? = some .unit ∧
     (run {} (pre ++ [.readLabels 0, .setItemG 0 0 [.num 7, .num 7]])).2.getLast? = some .unit := by decide
+
+/-- for EVERY state and grouped axis: `take` answers the same with the cache empty as with the cache filled by a read -/
+theorem grouped_take_fills (s : St) (g : Nat) (ps : List Int) :
+    (step s (.takeG g ps)).2 = (step (step s (.readLabels g)).1 (.takeG g ps)).2 ∨ s.grouped[g]? = none := by
+  cases h : s.grouped[g]? with
+  | none => right; rfl
+  | some x =>
+    left
+    have hlt : g < s.grouped.length := (List.getElem?_eq_some_iff.mp h).1
+    have h' : (s.grouped.set g (fillVals s.plain x))[g]? = some (fillVals s.plain x) := by
+      rw [List.getElem?_set_self hlt]
+    have hid : fillVals s.plain (fillVals s.plain x) = fillVals s.plain x := by
+      cases hv : x.vals <;> simp [fillVals, hv]
+    simp only [step, h, h', hid]
+    split <;> rfl
 
 /-- (b) is needed: an accepted `g[pos] = t` rewrites the cached tuples only, the members keep their labels -/
 theorem grouped_setitem_incoherent_counterexample :
